@@ -266,29 +266,32 @@ theorem dec_method (l : LameExt) (sc : Int) : (l.decoded sc).vbrMethod = l.vbrMe
 
 /-- what `MPEGInfo` makes of a stream with a LAME extension: the specification's information for the code's reading
 `lameOf` of the extension -/
-theorem parse_lame_code (s : LameStream) (ok : s.OK) :
-    parse s.build = .ok (s.expectedWith (lameOf (optVal s.tag.quality) s.ext)) := by
+theorem parse_lame_code_at (pre : Bytes) (s : LameStream) (ok : s.OK) :
+    parseFrom (pre ++ s.build) pre.length =
+      .ok { s.expectedWith (lameOf (optVal s.tag.quality) s.ext) with frameOffset := pre.length + s.lead.render.length } := by
   obtain ⟨hlead, hok, hl3, hside, htag, hver, hext⟩ := ok
-  obtain ⟨rest, hscan⟩ := lead_scan s.lead hlead s.hdr (s.side ++ (s.tag.render ++ (s.version.render ++ (s.ext.render ++ s.after))))
+  obtain ⟨rest, hscan⟩ := lead_scan_at pre s.lead hlead s.hdr (s.side ++ (s.tag.render ++ (s.version.render ++ (s.ext.render ++ s.after))))
   have hb : s.build = s.lead.render ++ (s.hdr.bytes ++ (s.side ++ (s.tag.render ++ (s.version.render ++ (s.ext.render ++ s.after))))) := rfl
   rw [← hb] at hscan
-  generalize ho : s.lead.render.length = o at *
-  have d0 : s.build.drop o = s.hdr.bytes ++ (s.side ++ (s.tag.render ++ (s.version.render ++ (s.ext.render ++ s.after)))) := by
-    rw [← ho]; exact drop_at _ _
-  have dq : s.build.drop (o + (4 + s.hdr.sideInfo)) = s.tag.render ++ (s.version.render ++ (s.ext.render ++ s.after)) := by
+  have hE := size_shift pre s.build s.lead.render.length _ rfl
+  generalize ho : pre.length + s.lead.render.length = o at *
+  have d0 : (pre ++ s.build).drop o = s.hdr.bytes ++ (s.side ++ (s.tag.render ++ (s.version.render ++ (s.ext.render ++ s.after)))) := by
+    rw [← ho]; exact drop_at2 _ _ _
+  generalize hF : pre ++ s.build = F at *
+  have dq : F.drop (o + (4 + s.hdr.sideInfo)) = s.tag.render ++ (s.version.render ++ (s.ext.render ++ s.after)) := by
     rw [← List.drop_drop, d0, ← List.append_assoc]
     exact List.drop_left' (by simp [length_hdr, hside])
-  have hx := parseXing_lame s.build (o + (4 + s.hdr.sideInfo)) s.tag htag s.version hver s.ext hext s.after dq
+  have hx := parseXing_lame F (o + (4 + s.hdr.sideInfo)) s.tag htag s.version hver s.ext hext s.after dq
   have hfs := frameSize_infoOf s.hdr hok
   have hlay : (infoOf s.hdr).layer = 3 := hl3
   have hxo := xing_offset s.hdr hok
   generalize hL : lameOf (optVal s.tag.quality) s.ext = L at hx
   have key : ∀ (fv bv : Int), optVal s.tag.frames = fv → optVal s.tag.bytes = bv →
-      parse s.build = .ok
+      parseFrom F pre.length = .ok
         { length := if fv ≠ -1 then
               .div (.flt (.int (if (s.hdr.samples : Int) * fv - L.delay - L.padding < 0 then 0
                                 else (s.hdr.samples : Int) * fv - L.delay - L.padding))) (.nat s.hdr.rate)
-            else .div (.int (8 * ((s.build.length : Int) - (o : Nat)))) (.flt (.int s.hdr.bitrate)),
+            else .div (.int (8 * ((F.length : Int) - (o : Nat)))) (.flt (.int s.hdr.bitrate)),
           bitrate := if fv ≠ -1 ∧ bv ≠ -1 ∧ (s.hdr.samples : Int) * fv > 0 then
               .round (.div (.int ((max 0 (bv - s.hdr.frameLength)) * 8 * s.hdr.rate)) (.flt (.int ((s.hdr.samples : Int) * fv))))
             else .int s.hdr.bitrate,
@@ -301,18 +304,18 @@ theorem parse_lame_code (s : LameStream) (ok : s.OK) :
           trackGain := L.trackGain, trackPeak := L.trackPeak, albumGain := L.albumGain, frameOffset := o } := by
     intro fv bv hfv hbv
     rw [hfv, hbv] at hx
-    have hvb := vbrHeader_lame s.build { offset := o, h := infoOf s.hdr, bitrate := .int (infoOf s.hdr).bitrate } s.tag.isInfo
+    have hvb := vbrHeader_lame F { offset := o, h := infoOf s.hdr, bitrate := .int (infoOf s.hdr).bitrate } s.tag.isInfo
       fv bv (optVal s.tag.quality) (s.version.major, s.version.minor) s.version.text L (text_ne _) (by simp only [hxo]; exact hx)
-    have hm : mpegFrame s.build o = .ok (some (vbrHeader s.build { offset := o, h := infoOf s.hdr, bitrate := .int (infoOf s.hdr).bitrate },
+    have hm : mpegFrame F o = .ok (some (vbrHeader F { offset := o, h := infoOf s.hdr, bitrate := .int (infoOf s.hdr).bitrate },
         o + (infoOf s.hdr).frameLength)) := by
       unfold mpegFrame
       rw [d0, decode_hdr s.hdr hok]
       simp only [hlay, ↓reduceIte]
-    have hsk : (vbrHeader s.build { offset := o, h := infoOf s.hdr, bitrate := .int (infoOf s.hdr).bitrate }).sketchy = false := by
+    have hsk : (vbrHeader F { offset := o, h := infoOf s.hdr, bitrate := .int (infoOf s.hdr).bitrate }).sketchy = false := by
       rw [hvb]
-    have htf := takeFrames_first s.build o _ _ hm hsk
-    have hsl := syncLoop_first s.build o rest _ htf hsk
-    unfold parse parseFrom
+    have htf := takeFrames_first F o _ _ hm hsk
+    have hsl := syncLoop_first F o rest _ htf hsk
+    unfold parseFrom
     simp only [hscan, hsl, hvb, hfs]
     by_cases hf1 : fv = -1
     · simp [hf1, infoOf, Option.getD]
@@ -324,7 +327,7 @@ theorem parse_lame_code (s : LameStream) (ok : s.OK) :
     have := key (-1) (optVal s.tag.bytes) (by simp [hfr, optVal]) rfl
     rw [this]
     subst hL
-    simp [LameStream.expectedWith, headerInfo, hfr, ho]
+    simp [LameStream.expectedWith, headerInfo, hfr, hE]
   | some n =>
     cases hby : s.tag.bytes with
     | none =>
@@ -332,7 +335,7 @@ theorem parse_lame_code (s : LameStream) (ok : s.OK) :
       rw [this]
       have hne : ¬ ((n : Int) = -1) := by omega
       subst hL
-      simp [LameStream.expectedWith, headerInfo, hfr, hby, ho, hne]
+      simp [LameStream.expectedWith, headerInfo, hfr, hby, hE, hne]
     | some b =>
       have := key (Int.ofNat n) (Int.ofNat b) (by simp [hfr, optVal]) (by simp [hby, optVal])
       rw [this]
@@ -341,7 +344,15 @@ theorem parse_lame_code (s : LameStream) (ok : s.OK) :
       have hpos : (0 < (s.hdr.samples : Int) * (n : Int)) ↔ 0 < s.hdr.samples * n := by
         rw [← Int.natCast_mul]; exact Int.natCast_pos
       subst hL
-      simp [LameStream.expectedWith, headerInfo, hfr, hby, ho, hne, hbe, hpos]
+      simp [LameStream.expectedWith, headerInfo, hfr, hby, hE, hne, hbe, hpos]
+
+theorem parse_lame_code (s : LameStream) (ok : s.OK) :
+    parse s.build = .ok (s.expectedWith (lameOf (optVal s.tag.quality) s.ext)) := by
+  have h := parse_lame_code_at [] s ok
+  simp only [List.nil_append, List.length_nil, Nat.zero_add] at h
+  rw [show parse s.build = parseFrom s.build 0 from rfl, h]
+  unfold LameStream.expectedWith
+  cases s.tag.frames <;> rfl
 
 theorem expected_eq (s : LameStream) : s.expected = s.expectedWith (s.ext.decoded (optVal s.tag.quality)) := by
   unfold LameStream.expected
@@ -349,6 +360,10 @@ theorem expected_eq (s : LameStream) : s.expected = s.expectedWith (s.ext.decode
 
 theorem parse_lame (s : LameStream) (ok : s.OK) : parse s.build = .ok s.expected := by
   rw [parse_lame_code s ok, expected_eq, lameOf_spec]
+
+theorem parse_lame_at (pre : Bytes) (s : LameStream) (ok : s.OK) :
+    parseFrom (pre ++ s.build) pre.length = .ok { s.expected with frameOffset := pre.length + s.lead.render.length } := by
+  rw [parse_lame_code_at pre s ok, expected_eq, lameOf_spec]
 
 theorem expected_album_gain (s : LameStream) (h1 : s.ext.albumGainSign = 1) (h2 : s.ext.albumGainType = 2) :
     s.expected.albumGain = some (.mul (.div (.nat s.ext.albumGainAbs) (.flt (.int 10))) (.int (-1))) := by
